@@ -950,4 +950,15 @@ theorem genuine_accepted_stream_retx (i : StreamIn) (wf : StreamWF i) (hkp : i.k
   simp only [Bool.true_or, if_true, streamOpenCall, hne, normalize_header i wf hrel, Bool.false_eq_true, if_false,
     hkb, hkp, streamSealCall, Option.isSome_some, Except.toOption]
 
+theorem decodeSecretControl_inv (b r : List Nat) (v : SecretView) (h : decodeSecretControl b = .ok (v, r)) :
+    ∃ k, decodeSecret k b = .ok (v, r) := by
+  unfold decodeSecretControl at h
+  split at h
+  · cases h
+  · dsimp only at h
+    repeat' split at h
+    all_goals try (cases h; done)
+    all_goals exact ⟨_, h⟩
+
+
 end Quic.Proofs.DcPackets
